@@ -511,3 +511,49 @@ pub extern "C" fn c17_access_threads() {
     vassert(slots_all_empty(), 5);
     cover(1);
 }
+
+/// C12 (sequential part): the same value stored in two containers, and twice in one, keeps every
+/// count exact; operations on one container never change what the other holds.
+#[no_mangle]
+pub extern "C" fn c12_shared_value() {
+    let pool: [Arc<u64>; 3] = [Arc::new(1), Arc::new(2), Arc::new(3)];
+    let a = ArcSwap::new(pool[0].clone());
+    let b = ArcSwap::new(pool[0].clone());
+    let ga = a.load();
+    let gb = b.load();
+    let k = nondet(1) as usize;
+    let which = nondet(2);
+    assume(k < 3 && which < 3);
+    match which {
+        0 => a.store(pool[k].clone()),
+        1 => {
+            let old = a.swap(pool[k].clone());
+            vassert(Arc::ptr_eq(&old, &pool[0]), 1);
+        }
+        _ => {
+            let prev = a.compare_and_swap(&*gb, pool[k].clone()); // a guard of B as `current` for A
+            vassert(Arc::ptr_eq(&prev, &pool[0]), 2);
+        }
+    }
+    // B is untouched, both guards still denote the shared value
+    vassert(Arc::ptr_eq(&b.load_full(), &pool[0]), 3);
+    vassert(Arc::ptr_eq(&ga, &pool[0]) && Arc::ptr_eq(&gb, &pool[0]), 4);
+    vassert(Arc::ptr_eq(&a.load_full(), &pool[k]), 5);
+    // store the value a second time into the same container
+    a.store(pool[k].clone());
+    drop(ga);
+    drop(gb);
+    vassert(slots_all_empty(), 6);
+    let mut want = [1usize; 3];
+    want[0] += 1; // B
+    want[k] += 1; // A
+    for i in 0..3 {
+        vassert(Arc::strong_count(&pool[i]) == want[i], 10 + i as u32);
+    }
+    drop(a);
+    drop(b);
+    for i in 0..3 {
+        vassert(Arc::strong_count(&pool[i]) == 1, 20 + i as u32);
+    }
+    cover(1);
+}
